@@ -297,6 +297,8 @@ type World struct {
 	opNext int
 	// HTTPDoer answers request_uri / jwks_uri fetches (no network).
 	Fetch func(url string) (int, string)
+	// FetchErr, if set and returning an error, makes the outgoing fetch fail at the transport (no HTTP response at all).
+	FetchErr func(url string) error
 	// Abandon, if set, is asked after NewAccessRequest (and the TokenMuts) whether the request is given up before NewAccessResponse.
 	Abandon func(fosite.AccessRequester) bool
 	// JWKSSettle waits until the shipped JWKS fetcher's cache has absorbed pending writes (RealJWKS worlds only).
@@ -318,6 +320,11 @@ func (w *World) NewSess(sub string) *Sess {
 type stubRT struct{ w *World }
 
 func (s stubRT) RoundTrip(r *http.Request) (*http.Response, error) {
+	if s.w.FetchErr != nil {
+		if err := s.w.FetchErr(r.URL.String()); err != nil {
+			return nil, err
+		}
+	}
 	code, body := 404, "not found"
 	if s.w.Fetch != nil {
 		code, body = s.w.Fetch(r.URL.String())
